@@ -130,6 +130,14 @@ func (g *Gen) initTrusted() {
 		ty, iv, sv := iosFields(fc, st, Val{T: args[0].T}, pt)
 		ok := and(not(eq(args[0].T, "nilref")), app("scaledOk", ty, sv))
 		val := app("scaled", ty, iv, sv, args[1].T, args[2].T)
+		// the value read here is part of a counterexample (replay adapters rebuild the IntOrString from it)
+		if base := shortExpr(c.Args[0]); base != "" {
+			for _, f := range []struct{ n, t, srt string }{{"Type", ty, sInt}, {"IntVal", iv, sInt}, {"StrVal", sv, sStr}} {
+				c := fc.q.freshConst("ios_"+f.n, f.srt)
+				fc.q.assert(eq(c, f.t))
+				fc.inputs = append(fc.inputs, InputTerm{Path: base + "." + f.n, Term: c, Sort: f.srt})
+			}
+		}
 		r := fc.q.freshConst("scaled", sInt)
 		fc.q.assert(implies(st.reach, eq(r, ite(ok, val, "0"))))
 		return Val{Tup: []Val{{T: r}, errVal(fc, st, ok)}}, true
